@@ -419,6 +419,13 @@ def replay(payload):
 
 # ------------------------------------------------------------------ determinism of the machinery itself
 
+def _scrub(text):
+    """The scratch directory's random name shows up in the event log when the seam vector names files by ABSOLUTE path; it is
+    not part of the plan (found by running the quick tier under VERIF_SEED=4: a harness error on the unchanged tree)."""
+    import re
+    return re.sub(r"vsim-[A-Za-z0-9_]+", "vsim-X", text if isinstance(text, str) else text.decode("latin-1"))
+
+
 def determinism_probe(grammars, seed):
     """Same seed twice -> same seam vectors, same event logs, same outputs.  Returns (harness_bad, violations): outputs
     that differ although every seam was held equal are a violation of C10 itself (something outside the simulator's
@@ -439,7 +446,7 @@ def determinism_probe(grammars, seed):
             if d:
                 violations.append({"class": "output-differs-between-identical-runs", "key": "identical:" + "+".join(d), "mode": "directed",
                                    "grammar": g["text"], "grammar_name": g["name"], "shell": sh, "vector": vec, "ref_vector": vec, "differs": d})
-            elif (a["exit"], a["raw_log"], a["stderr"]) != (b["exit"], b["raw_log"], b["stderr"]):
+            elif (a["exit"], _scrub(a["raw_log"]), _scrub(a["stderr"])) != (b["exit"], _scrub(b["raw_log"]), _scrub(b["stderr"])):
                 bad += 1
     return bad, violations
 
